@@ -124,6 +124,8 @@ theorem diagM_error_kinds (m : M6 ℝ) (e : Err) (h : diagM m = .error e) : e = 
 
 /-! ### `diagM_similarity` (stretch goal): proved for a 2x2 active block
 
+  UPDATE: the full statement below is now proved in `Props/C16QL.lean` (`diagM_similarity`, with the explicit residual).
+
   Full statement, NOT proved: for every m with `diagM m = .ok d`, every implicit-shift sweep — including the
   two-rotation sweep over the full 3x3 block (l = 0, mm = 2) — is an exact similarity `Q (T + f·I) Qᵀ = m`,
   hence `formM d + Q N Qᵀ = m` where N collects the sub-diagonal entries dropped when they passed the
